@@ -7,4 +7,4 @@ import json
 u=json.load(open('/verif/units/$U.json'))
 print(' '.join(('--verify-root' if m in ('','crate') else '--verify-only-module '+m) for m in u.get('verify_modules',[])))")
 if [ -n "${ONLY:-}" ]; then MODS=""; for m in $ONLY; do MODS="$MODS --verify-only-module $m"; done; fi
-cd /var/tmp/vx && verus $U.rs --triggers-mode silent --multiple-errors 5 $MODS "$@" 2>&1 | grep -E "^error|^verification" -A${CTX:-9} | grep -v "^--" | grep -v "canary\|at the end of the function body\|      |       |$" 
+cd /var/tmp/vx && RUST_MIN_STACK=2000000000 verus $U.rs --triggers-mode silent --multiple-errors 5 $MODS "$@" 2>&1 | grep -E "^error|^verification" -A${CTX:-9} | grep -v "^--" | grep -v "canary\|at the end of the function body\|      |       |$" 
